@@ -35,6 +35,12 @@ SPECIALS = [
     "M0,0 L10,0 L10,1e-10 L0,1e-10 Z",
     "M0.1,0.2 l0.1,0.2 l0.1,0.2 l-0.3,-0.6",
     "M100,100 l1e-10,0 l-1e-10,1e-10 z",
+    # the "full circle with one arc" idiom: end point next to the start point but not on it, large-arc flag set
+    "M12,2 a5,5 0 1 1 1e-10,0 z",
+    "M12,2 A5 5 0 1 0 12,2.0000000002",
+    "M40,40 a10,6 30 1 0 -2e-10,1e-10 L60,60",
+    "M3,3 A4 4 0 1 1 3.0000000005,3 A2 2 0 1 0 3,3.0000000004",
+    "M0,0 a1e3,1e3 0 1 1 0,1e-9",
 ]
 
 
